@@ -297,7 +297,7 @@ func c06RunPattern(w *World, kind c06Kind, pattern string, pl []c06Place, res *c
 	d := run.Open(nil)
 	final := map[string]int64{}
 	changed := ""
-	hk := st.Hooks(d.DBFile(), func() uint32 { return d.Node.Sync.Synced })
+	hk := st.Hooks(d.DBFile(), func() uint32 { return SyncedOf(d.DBFile()) })
 	inner := hk.After
 	hk.After = func(op *sqlw.Op, err error) {
 		if track {
@@ -309,7 +309,7 @@ func c06RunPattern(w *World, kind c06Kind, pattern string, pl []c06Place, res *c
 		// status finality: once a recorded entry has a non-zero status it never changes
 		for k, ex := range readStatuses(d.DBFile()) {
 			if prev, ok := final[k]; ok && prev != ex && changed == "" {
-				changed = fmt.Sprintf("entry %s… (hash@recorded height): status %d became %d at height %d", k[:12]+k[64:], prev, ex, d.Node.Sync.Synced)
+				changed = fmt.Sprintf("entry %s… (hash@recorded height): status %d became %d at height %d", k[:12]+k[64:], prev, ex, SyncedOf(d.DBFile()))
 			}
 			if ex != 0 {
 				final[k] = ex
